@@ -43,8 +43,9 @@ CLAIMED = {
     ),
     "C04": (
         "other",
-        "dominating-guard analysis of the parsers; table agreement with the grammar; abstract interpretation for "
-        "implicit-exception sites; raise classification",
+        "dominating-guard analysis of the parsers arbitrated by a semantic analysis of the parse and mandatory phases on "
+        "representative strings; table agreement with the grammar; abstract interpretation for implicit-exception sites; raise "
+        "classification",
         "DESIGN.md section 4 C04",
         "Every store into the metric map is dominated by the four grammar facts on the raw split components; consulted "
         "tables equal the specification grammar; prefix chain accepts exactly the version prefixes and drops as many "
@@ -105,7 +106,7 @@ CLAIMED = {
         "regular-language inclusion: emitted field automaton vs DFA of the official vectorString pattern",
         "DESIGN.md section 4 C08",
         "The emitted language of clean_vector()/rh_vector() (extracted by abstract interpretation) and of the interactive builder "
-        "(from the asked tables) is included in the language of the pinned FIRST vectorString pattern of its version, decided by "
+        "(field order read off its value graph) is included in the language of the pinned FIRST vectorString pattern of its version, decided by "
         "propagating reachable DFA states through the ordered optional/mandatory field sequence.",
         "Builder structure relies on C16; self-acceptance on C07.reparse. Trusted: " + TB + "; re._parser as regex front end",
     ),
@@ -138,13 +139,15 @@ CLAIMED = {
         "v4 value names compared leniently (swaps/non-injective names only). Trusted: " + TB,
     ),
     "C12": (
-        "proof",
-        "abstract interpretation of rh_vector + structural (dominating-guard / try-handler) analysis of from_rh_vector",
+        "other",
+        "abstract interpretation of rh_vector; semantic analysis of from_rh_vector: abstract interpretation (exceptions as control "
+        "flow) over a symbolic input ranging over representative Red Hat strings, constructor replaced by the grammar",
         "DESIGN.md section 4 C12",
-        "rh_vector() = str(scores()[0]) + '/' + clean_vector(); from_rh_vector splits on the first '/' only, converts both "
-        "ValueErrors to RHMalformed, constructs from the untransformed remainder outside any handler, accepts on exact == with "
-        "scores()[0], raises RHScoreDoesNotMatch otherwise and returns the constructed object.",
-        "Round trip by composition with C07.reparse, C09.quantised and float repr round-trip. Trusted: " + TB,
+        "rh_vector() = str(scores()[0]) + '/' + clean_vector() (value graph). from_rh_vector: for 143 representative strings per "
+        "version (score texts x vector parts, strings without '/') the outcome read off the value graph - object returned or class "
+        "raised - is the one the property states.",
+        "from_rh_vector is decided on representatives, not for all strings; the constructor stub rests on C04. Round trip by "
+        "composition with C07.reparse, C09.quantised and float repr round-trip. Trusted: " + TB,
     ),
     "C15": (
         "proof",
@@ -155,47 +158,60 @@ CLAIMED = {
         "Score preservation is the composition of C05.nd and C06.a. Trusted: " + TB,
     ),
     "C13": (
-        "proof",
-        "regex-as-data reasoning (re._parser AST) against the parsers' tables + try/handler and guard analysis",
+        "other",
+        "regex-as-data reasoning (re._parser AST) against the parsers' tables; semantic analysis of parse_cvss_from_text: abstract "
+        "interpretation over symbolic candidate lists with the constructors replaced by the grammar",
         "DESIGN.md section 4 C13",
-        "The candidate regex has no capturing group and the shape (optional prefix)(class){n,}; class, n, prefix group and the "
-        "no-straddle condition are checked against the accepted tables, so a delimited valid vector is matched exactly; both "
-        "constructor calls get the raw match inside a handler covering every constructor exception; results de-duplicated on ==.",
-        "Assumes leftmost-greedy re semantics and C04.escape/C07.eq. A regex of another shape is reported undecided (exit 2). Trusted: " + TB,
+        "The pattern the function really searches has no capturing group and the shape (optional prefix)(class){n,m}; class, n, m, "
+        "prefix group and the no-straddle condition are checked against the accepted tables, so a delimited valid vector is matched "
+        "exactly (proof on the regex as data). For K in {0,1,3} candidates over 21 representative strings the returned collection is "
+        "exactly the valid candidates (or valid parts), each once, and nothing leaves the function; sort keys that can be None are found "
+        "on the object model.",
+        "The function part is decided on representative candidate sequences. Assumes leftmost-greedy re semantics; the constructor "
+        "stubs rest on C04 (discharged inside C13) and == on C07 (discharged). A regex of another shape: exit 2. Trusted: " + TB,
     ),
     "C14": (
         "other",
-        "table monotonicity along the specification's severity orders; sign-of-dependence certificates on value graphs",
+        "table monotonicity along the specification's severity orders; sign-of-dependence certificates on value graphs; exact "
+        "tabulation of value-graph sub-terms over the images of their weight leaves",
         "DESIGN.md section 4 C14",
-        "Necessary conditions (monotone weights, both PR tables, strictly ordered v4 levels, monotone lookup along all digit "
-        "increments) and compositional certificates (partial derivatives bounded >= 0 by multilinear vertex enumeration; "
-        "threshold ITEs at the bottom of a clamp) for the sub-cases where they exist.",
-        "Not decided: v3 Scope changed, S/MS steps, v2 base in C/I/A, v4 across macrovector boundaries (numeric on the discrete grid). Trusted: " + TB,
+        "Monotone weights, both PR tables, strictly ordered v4 levels, monotone lookup along all digit increments; for v2 and v3 "
+        "every (score, metric step, case) is decided - by derivative-sign certificates where they exist, otherwise by exact-rational "
+        "tabulation of the rounded value graph over the finite leaf images (whole tables, no sampling), with witness vectors.",
+        "Not decided: v4 across macrovector boundaries. Trusted: " + TB,
     ),
     "C16": (
-        "proof",
-        "structural dominance analysis of the answer loop + decision tables of the version switches + table agreement",
+        "other",
+        "semantic analysis of ask_interactively: abstract interpretation with every answer a symbol over representative answers, "
+        "retry loops summarised by one symbolic iteration; table agreement; call-graph cycle rule",
         "DESIGN.md section 4 C16",
-        "Version switches (tables, empty-answer token, prefix) are exact on the four versions; the answer loop has a single exit "
-        "right after the only append, dominated by the legality test; builder and parser value sets agree; every legal value is "
-        "in the image of the answer normaliser and the table spelling is appended.",
-        "Two accept idioms are recognised; another idiom is reported as analysis error, not as a violation. Trusted: " + TB,
+        "For version in {2,3,3.0,3.1,4,4.0,5.0} x all_metrics the returned string, as a concatenation of constants and per-answer "
+        "tables in canonical form, equals the specification: prefix, one field per asked metric, accepted answers (case-insensitive, "
+        "empty = Not Defined where legal), appended spelling; a rejected answer leaves no trace; nothing can raise; an unsupported "
+        "version is refused.",
+        "Decided on about 150 representative answers per question (about 65 x 65 when a question reads a first try and a retry). "
+        "A builder the interpreter cannot follow: exit 2. Trusted: " + TB,
     ),
     "C17": (
         "other",
-        "decision tables over flag combinations and versions; try/handler containment; provenance of printed values",
+        "semantic analysis of cvss_calculator.main: abstract interpretation over symbolic command lines with argparse replaced by its "
+        "specification for the listed options, constructors / accessors / builder by tokens, print / json.dumps / exit by recorders",
         "DESIGN.md section 4 C17",
-        "Option census, 128-row decision table of the version selection, version->class/heading tables, exception containment "
-        "for constructor, interactive entry and slot subscripts, and provenance of every printed value.",
-        "argparse's own behaviour is outside the model; relies on C18 for accessor totality. Trusted: " + TB,
+        "For 768 command lines x input endings: nothing leaves main(), no non-zero exit, the class (and the version asked "
+        "interactively) is one the flags select, -a reaches the builder, every score slot is printed verbatim with its rating, "
+        "clean_vector() and rh_vector() with default arguments, JSON of as_json(sort=True, minimal=True) exactly with -j, the "
+        "library's exception for an invalid vector; argparse options that could reject or re-read a listed command line are findings. "
+        "The builder itself: the C16 analysis.",
+        "argparse's own text and argv it rejects are outside the model; relies on C18 for accessor totality. Trusted: " + TB,
     ),
     "C20": (
         "other",
-        "AST feature census, API availability tables, divergence lints, plain-dict-order typestate, compile-only witnesses",
+        "AST feature census, API availability tables, divergence lints (division, types, json separators, regex folding, lazy "
+        "iterators, identity of values, comprehension leak by reaching definitions), plain-dict-order typestate, compile-only witnesses",
         "DESIGN.md section 4 C20",
         "The source stays in the common subset of 2.7 and 3.6-3.13 (syntax, names, __future__ imports, object bases), has no "
-        "int/int division or round(), no plain-dict order reaching results/output/control, and parses under every installed "
-        "declared interpreter.",
+        "int/int division or round(), no plain-dict order reaching results/output/control, no construct from the divergence classes "
+        "listed, and parses under every installed declared interpreter.",
         "Equality of results across runtimes in general is not decided (would need execution). Trusted: " + TB + "; the installed interpreters as parsers",
     ),
 }
